@@ -15,6 +15,7 @@
 import SlicecVerif.Model.SchemaCodec
 import SlicecVerif.Model.Elab
 import SlicecVerif.Gen.EncoderShapes
+import SlicecVerif.Gen.ParamDocs
 
 namespace Slicec
 
@@ -409,12 +410,16 @@ def entityInfoOf (t : Table) (selfKey name : String) (attrs : List Attr) (doc : 
   { identifier := sb name, attributes := convAttrs attrs, comment := (parseDoc doc).map (convDoc t selfKey) }
 
 /-- how the documentation of parameters and return members is looked up:
-    `asImplemented` = `get_doc_comment_for_parameter` (the `@param` tags for both lists — D-08a);
+    `asImplemented` = `get_doc_comment_for_parameter` before the repair of D-08a (the `@param` tags for both lists);
     `asDemanded` = what the property demands (`@param` for parameters, `@returns` for return members). -/
 inductive DocMode where
   | asImplemented
   | asDemanded
   deriving DecidableEq, Repr
+
+/-- the mode the current source implements, read off `get_doc_comment_for_parameter` by the translator
+    (`Gen.returnDocsFromReturnsTags`: true since the repair of D-08a) -/
+def DocMode.current : DocMode := if Gen.returnDocsFromReturnsTags then .asDemanded else .asImplemented
 
 /-- `get_doc_comment_for_parameter` -/
 def paramDoc (mode : DocMode) (t : Table) (opKey : String) (opDoc : Option ParsedDoc) (isReturn : Bool) (single : Bool)
